@@ -211,10 +211,18 @@ LockFinish ==
   /\ phase' = "idle" /\ oldc' = <<>>
   /\ UNCHANGED <<par, wt, fvars, locked, anchor, h2i, delivered, err, nadd, nlock, rdelivered, rops>>
 
+\* lock_to_index(k) with k at or below the locked length: `index < 1`, the call returns at once
+LockNoop(k) ==
+  /\ phase = "idle" /\ err = "" /\ nlock < MaxLock
+  /\ k >= 1 /\ k <= Len(locked)
+  /\ nlock' = nlock + 1
+  /\ UNCHANGED <<par, wt, fvars, locked, anchor, cache, h2i, delivered, oldc, phase, err, nadd, rvars>>
+
 Next == \/ \E B \in SUBSET Hashes : AddBegin(B)
         \/ \E h \in Hashes : Pop(h)
         \/ AddFinish
         \/ \E k \in 1..N : LockBegin(k)
+        \/ \E k \in 1..N : LockNoop(k)
         \/ LockFinish
 Spec == Init /\ [][Next]_vars
 
